@@ -17,6 +17,7 @@ import (
 	"github.com/libp2p/go-libp2p/core/peer"
 
 	"github.com/ipfs/go-graphsync"
+	gsimpl "github.com/ipfs/go-graphsync/impl"
 
 	"verif/harness/internal/cw"
 	"verif/harness/internal/dag"
@@ -156,7 +157,7 @@ func runPausedPair(d *dag.DAG, sel datamodel.Node, tb *tables, inL, inR func(int
 			case <-time.After(8 * time.Second):
 				buf := make([]byte, 1<<21)
 				n := runtime.Stack(buf, true)
-				ps := req.PeerState(world.Nodes[1].ID())
+				ps := req.(*gsimpl.GraphSync).PeerState(world.Nodes[1].ID())
 				fmt.Fprintf(os.Stderr, "HANG after pause (8s) safe=%v block=%d outgoing=%v pending=%v active=%v\n%s\nENDHANG\n", safe, block, ps.OutgoingState.RequestStates, ps.OutgoingState.Pending, ps.OutgoingState.Active, buf[:n])
 				res = <-donec
 			}
